@@ -10,7 +10,7 @@ NOT_APPLICABLE["C03"] = ("relation between an arbitrary dynamic call tree and an
                          "evolution of handler collections and accumulator forks; no sound static abstraction in reach bounds embeddings")
 NOT_APPLICABLE["C07"] = ("quantifies over call trees and runtime data flow through Total accumulator forks; its only structural clause "
                          "(exit hook on every way out) is decided under C06 rule R06.1")
-SOURCE_COMMITS = ["746fd1a fix: undo the instrumentation counts when the new variant cannot be installed", "798314f fix: untool the functions of a selector that autotool ends up refusing", "f8603ba fix: roll back the tooling of earlier selectors when a later one is refused", "e29e1a9 fix: mark the cached instrumented variants as helper functions", "ceee686 fix: match the receiver of a bound-method selector by identity", "f362961 fix: serialize instrumentation changes between threads", "3d31492 fix: do not rewrite the bodies of nested classes, lambdas and async functions", "744a5c2 fix: rewrite the right-hand side of assignments too", "2a0cb7a fix: collect the names bound in except bodies and by match patterns"]
+SOURCE_COMMITS = ["746fd1a fix: undo the instrumentation counts when the new variant cannot be installed", "798314f fix: untool the functions of a selector that autotool ends up refusing", "f8603ba fix: roll back the tooling of earlier selectors when a later one is refused", "e29e1a9 fix: mark the cached instrumented variants as helper functions", "ceee686 fix: match the receiver of a bound-method selector by identity", "f362961 fix: serialize instrumentation changes between threads", "3d31492 fix: do not rewrite the bodies of nested classes, lambdas and async functions", "744a5c2 fix: rewrite the right-hand side of assignments too", "2a0cb7a fix: collect the names bound in except bodies and by match patterns", "466fe4b fix: report the name bound by a dotted import"]
 
 claim("C12", "P", "AST normal-form comparison tables + wrapper-guard agreement (syntactic dataflow)",
       "Decides structural clauses only: each stock comparison predicate is the single comparison its name states (holds for all "
@@ -81,3 +81,10 @@ claim("C10", "T+P", "effect-table extraction of the name collector (which handle
       "is consulted on 3-line snippets, never on ptera. Nine genuine disagreements are listed as known findings.",
       "Trusted: symtable/ASDL of the running interpreter (rows failing validation give ANALYSIS-ERROR). The collector is read, not run: handler effects are matched syntactically (self.assigned.add(...), self.provenance[...] = literal, generic_visit / visit calls, helper methods inlined).",
       "DESIGN.md section 6, C10")
+
+claim("C02", "T+P", "template queries (binding-site coverage against the collector's accept set, adjacency/order of interactions, unvisited slots, symbol/target agreement) and CFG ordering rules on Interactor.interact and the accumulators",
+      "Decides, for all programs and instrumentation subsets, that each listed binding form the collector accepts is rewritten into an adjacent interact on that very name, that nothing else is "
+      "reported, that no slot able to hold a binding is skipped, and that interact intercepts, guards, logs the value it returns and triggers once, handing snapshots to callbacks. "
+      "Event values at run time are not decided. Five genuine gaps (with-target, list target, walrus in store-target sub-expressions x2, keyed-target naming) are known findings.",
+      "Trusted: engine T base (see C01); the collector effect table (see C10).",
+      "DESIGN.md section 6, C02")
